@@ -162,6 +162,39 @@ def validate_trace(module, trace_path, workers=4, timeout=1800, expect_states=No
     return rej, r
 
 
+def validate_stateless(c, module, recs, describe, mutate, label, workers=8, timeout=3000, env=None):
+    """Validate independent events (each its own initial state) with monitor spec `module`.
+    mutate(copy_of_event) corrupts one recorded output in place (canary).  Returns rejected events (without the canary)."""
+    wd = c.workdir()
+    n = len(recs)
+    if n == 0:
+        raise ToolError("no events recorded for %s" % module)
+    import copy as _copy
+    can = None
+    for e in recs[c.seed % n:] + recs:
+        if e.get("res") == "ok":
+            can = _copy.deepcopy(e)
+            mutate(can)
+            break
+    full = recs + ([can] if can else [])
+    trace = os.path.join(wd, "%s-%d.ndjson" % (module, _META_SEQ[0]))
+    write_ndjson(trace, full)
+    rej, r = validate_trace(module, trace, workers=workers, timeout=timeout, expect_states=2 * len(full), env=env)
+    os.remove(trace)
+    idx = sorted(l for l, _ in rej)
+    if can is not None:
+        if len(full) not in idx:
+            raise ToolError("canary event was not rejected: %s validation is not binding" % module)
+        idx.remove(len(full))
+        c.cov["canary_rejected"] = True
+    bad = []
+    for l in idx:
+        e = recs[l - 1]
+        bad.append(e)
+        c.violation(describe(e), [e], "%s: event rejected by %s: %s" % (label, module, shorten(e, 16)))
+    return bad
+
+
 def validate_episodes(c, module, trace, describe, canary, label, workers=8, timeout=3000, env=None):
     """Validate a recorded trace made of episodes (k == 0 starts one) with the monitor spec `module`.
     canary(ep) -> corrupted copy of a prefix of ep (list of events) or None; the corrupted LAST event must be rejected.
